@@ -78,6 +78,7 @@ def build(timeout=3000, jobs=16):
             with open(cp, 'w') as f:
                 f.write(want)
             sh('coq_makefile -f _CoqProject -o Makefile', cwd=COQ, timeout=120)
+        gen_entries()
         rc, out = sh('timeout %d make -k -j%d 2>&1' % (timeout, jobs), cwd=COQ, timeout=timeout + 60)
         res.make_rc, res.make_log = rc, out
         res.failed_files = sorted(set(re.findall(r'File "\./([^"]+\.v)", line \d+, characters [^\n]*\n(?:Error|Anomaly)', out))
@@ -104,6 +105,37 @@ def build(timeout=3000, jobs=16):
         lock.close()
     res.wall = time.time() - t0
     return res
+
+
+ENTRY_RE = re.compile(r'\(\*\s*ENTRY\s+(\d+)\s+([A-Za-z0-9_\']+)\s*\*\)')
+
+
+def gen_entries():
+    """Model/Entries.v is generated: every model file registers its flat
+    integer entry points with a marker comment  (* ENTRY <opcode> <function> *)
+    where function : list N -> list N."""
+    regs = []
+    for v in sorted(glob.glob(os.path.join(COQ, 'Model', '*.v'))):
+        base = os.path.basename(v)[:-2]
+        if base == 'Entries':
+            continue
+        for m in ENTRY_RE.finditer(open(v).read()):
+            regs.append((int(m.group(1)), base, m.group(2)))
+    regs.sort()
+    codes = [r[0] for r in regs]
+    assert len(codes) == len(set(codes)), 'duplicate ENTRY opcode: %r' % regs
+    mods = sorted(set(r[1] for r in regs))
+    text = ('(* Model/Entries.v - GENERATED by harness/core.py from the ENTRY markers of Model/*.v *)\n'
+            'From Coq Require Import List NArith.\n'
+            + ''.join('From CssV Require Model.%s.\n' % m for m in mods)
+            + 'Import ListNotations.\nLocal Open Scope N_scope.\n\n'
+            'Definition dispatch (op : N) (args : list N) : list N :=\n  match op with\n'
+            + ''.join('  | %d => Model.%s.%s args\n' % (c, m, f) for c, m, f in regs)
+            + '  | _ => [999999]\n  end.\n')
+    path = os.path.join(COQ, 'Model', 'Entries.v')
+    if not os.path.exists(path) or open(path).read() != text:
+        with open(path, 'w') as f:
+            f.write(text)
 
 
 def vo_deps(vfile):
